@@ -175,3 +175,19 @@ for _cls, _rd in (('nfc.tag.tt3:Type3Tag', 'nfc.tag.tt3:Type3Tag.NDEF._read_ndef
              name='C08/tag.ndef', call='getter', use=['C08/reader.summary'],
              ensures=[('post.none-or-data', 'result is None or result._data is not None')],
              raises={})
+
+# ---------------------------------------------------------------- Type 1/2: the capacity the reader reports
+# "length does not exceed capacity" means something only if the capacity is what the layout holds: the usable
+# octets from the NDEF TLV to the end of the data area (reserved ranges excluded) must hold the tag octet, the
+# length field (1 octet below 255, else 3) and `capacity` value octets.  len() of the interval set difference is
+# an uninterpreted size (same expression, same size) - the contract is about the arithmetic on top of it.
+for _p in ('C08', 'C01'):
+    contract(T2 + 'get_capacity', _p, dict(capacity=Int(0, 2040), offset=Int(0, None), skip_bytes=IntSet(0, 0x80000)),
+             name='%s/tt2.get_capacity' % _p, raises={},
+             ensures=[('O-capacity.fits', 'result < 0 or result + (2 if result < 255 else 4) <= '
+                                          'len(set(range(offset, capacity + 16)) - skip_bytes)')])
+    contract(T1 + 'get_capacity', _p, dict(tag_memory_size=Int(0, 2048), offset=Int(0, None),
+                                           skip_bytes=IntSet(0, 0x800)),
+             name='%s/tt1.get_capacity' % _p, raises={},
+             ensures=[('O-capacity.fits', 'result < 0 or result + (2 if result < 255 else 4) <= '
+                                          'len(set(range(offset, tag_memory_size)) - skip_bytes)')])
